@@ -34,7 +34,8 @@ ASSUMPTIONS = [
 ]
 FLOORS = {'probes': 2000, 'name_probes': 20,
           'probes_after_reassignment': 500, 'derived_models': 5,
-          'reassignments_xlcell': 10}
+          'reassignments_xlcell': 10,
+          'failing_evaluations_before_reassignment': 20}
 ANCHOR_FUNCS = {
     'xlcalculator/ast_nodes.py': ['RangeNode.eval', 'RangeNode.full_address',
                                   'EvalContext.set_sheet'],
@@ -382,6 +383,24 @@ def run(ctx):
         wb = ref.Workbook(cells, names)
         for p in probes:
             wb.cells[p.key] = ('f', p.ast)
+        # formulas that FAIL after they have read cells of the blocks (an
+        # unknown function as their last operand): evaluated, and caught,
+        # before the cells are re-assigned
+        failing = []
+        for si, s_ in enumerate(sheets[:2]):
+            other = sheets[(si + 1) % len(sheets)]
+            key = (s_, 40, 1)
+            ast = ('bin', '+', ('call', 'SUM', [
+                ('rng', other, 1, 1, NCOL, NROW, (False,) * 4)]),
+                ('ref', None, 2, 2, False, False))
+            # ... and formula cells (other probes), so that their results
+            # have been computed as precedents of the failing evaluation
+            for p in rng.sample(probes, min(len(probes), 10)):
+                ast = ('bin', '+', ast, ('call', 'COUNTA', [
+                    ('ref', p.key[0], p.key[1], p.key[2], False, False)]))
+            wb.cells[key] = ('f', ('bin', '+', ast, (
+                'call', 'NOSUCHFUNCTION', [('lit', 1, '1')])))
+            failing.append(key)
         try:
             if path_kind == 'xlsx':
                 model = build.model_from_xlsx(
@@ -453,6 +472,11 @@ def run(ctx):
                       group=f'{path_kind}:{p.kind}:{p.spelling[:3]}:'
                             f'{",".join(sorted(p.tags))}')
         run_probes(probes, 'first')
+        for key in failing:
+            got = subject.outcome_of(lambda: ev.evaluate(build.addr(key)))
+            ctx.event('failing_evaluations_before_reassignment')
+            if got[0] != 'raised':
+                ctx.note(f'the failing probe returned {got}')
         # ---- the CURRENT value: cells of the blocks are re-assigned through
         # set_cell_value and a sample of the probes is evaluated again
         numeric = [k for k, v in cells.items()
